@@ -499,9 +499,11 @@ func TypecheckPossiblyNullableStruct(ctx context.Context, env physical.Environme
 	}
 	targetType := octosql.Type{
 		TypeID: octosql.TypeIDUnion,
+		// Alternatives of a union are ordered by TypeID everywhere else (TypeSum); Materialize of an
+		// ObjectFieldAccess on a nullable object reads the object type from Alternatives[1].
 		Union: struct{ Alternatives []octosql.Type }{Alternatives: []octosql.Type{
-			nonNullableExprType.Union.Alternatives[foundIndex],
 			octosql.Null,
+			nonNullableExprType.Union.Alternatives[foundIndex],
 		}},
 	}
 	return physical.Expression{
